@@ -79,7 +79,7 @@ theorem serve_cases (cfg : Cfg) (p : Bytes) (cl : Int) (body : Bytes)
         ((∃ ra e, resolver cred = .unavailable ra e ∧ serve cfg p cl body decode resolver digest =
             { resp := .refusal .unavailable (some (retryAfterOf ra)), bodyRead := read, resolverCalls := [cred],
               log := [{ msg := .unavailable, principal := p, digest := some (digest cred), err := some e }] }) ∨
-         (resolver cred = .unknown ∧ serve cfg p cl body decode resolver digest =
+         ((∃ up un ut, resolver cred = .unknown up un ut) ∧ serve cfg p cl body decode resolver digest =
             { resp := .refusal .unresolved none, bodyRead := read, resolverCalls := [cred],
               log := [{ msg := .unresolved, principal := p, digest := some (digest cred) }] }) ∨
          (∃ rp n ttl, resolver cred = .identity rp n ttl ∧ serve cfg p cl body decode resolver digest =
@@ -99,7 +99,7 @@ theorem serve_cases (cfg : Cfg) (p : Bytes) (cl : Int) (body : Bytes)
         refine Or.inr (Or.inr ⟨cred, read, rfl, hj, ?_⟩)
         cases hres : resolver cred with
         | unavailable ra e => exact Or.inl ⟨ra, e, rfl, by simp [hj, hres]⟩
-        | unknown => exact Or.inr (Or.inl ⟨rfl, by simp [hj, hres]⟩)
+        | unknown up un ut => exact Or.inr (Or.inl ⟨⟨up, un, ut, rfl⟩, by simp [hj, hres]⟩)
         | identity rp n ttl => exact Or.inr (Or.inr ⟨rp, n, ttl, rfl, by simp [hj, hres]⟩)
 
 theorem readToken_some (decode : Bytes → Option Bytes) (cl : Int) (body cred : Bytes) (read : Bool)
@@ -456,19 +456,29 @@ theorem rate_bound (pw : Nat) (window : Int) (evs : List (Int × Bytes)) (w : Na
 
 /-! ## 4/5. Uniform 404, and the credential stays out of the outputs -/
 
-/-- **unresolved_uniform_404** -/
+/-- **unresolved_uniform_404**: an unusable body, a JWS-shaped subject and a resolver answer of
+`ok = false` — with ANY identity filled in alongside — are the one value `refusal unresolved`. -/
 theorem unresolved_uniform_404 (cfg : Cfg) (p : Bytes) (cl : Int) (body : Bytes)
     (decode : Bytes → Option Bytes) (resolver : Bytes → Res) (digest : Bytes → Bytes) :
     (serve cfg p cl body decode resolver digest).resp = .refusal .unresolved none ∨
     ∃ cred read, readToken decode cl body = (some cred, read) ∧ jwsShaped cred = false ∧
-      resolver cred ≠ .unknown ∧ (serve cfg p cl body decode resolver digest).resolverCalls = [cred] := by
+      (∀ up un ut, resolver cred ≠ .unknown up un ut) ∧
+      (serve cfg p cl body decode resolver digest).resolverCalls = [cred] := by
   rcases serve_cases cfg p cl body decode resolver digest with ⟨read, _, hs⟩ | ⟨cred, read, _, _, hs⟩ | ⟨cred, read, hrt, hj, hs⟩
   · rw [hs]; exact Or.inl rfl
   · rw [hs]; exact Or.inl rfl
   · rcases hs with ⟨ra, e, hr, hs⟩ | ⟨_, hs⟩ | ⟨rp, n, ttl, hr, hs⟩
-    · rw [hs]; exact Or.inr ⟨cred, read, hrt, hj, by rw [hr]; simp, rfl⟩
+    · have hne : ∀ up un ut, resolver cred ≠ .unknown up un ut := by
+        intro up un ut h
+        rw [hr] at h
+        cases h
+      rw [hs]; exact Or.inr ⟨cred, read, hrt, hj, hne, rfl⟩
     · rw [hs]; exact Or.inl rfl
-    · rw [hs]; exact Or.inr ⟨cred, read, hrt, hj, by rw [hr]; simp, rfl⟩
+    · have hne : ∀ up un ut, resolver cred ≠ .unknown up un ut := by
+        intro up un ut h
+        rw [hr] at h
+        cases h
+      rw [hs]; exact Or.inr ⟨cred, read, hrt, hj, hne, rfl⟩
 
 /-- The bodies are functions of the code alone; these are the two the property names. -/
 theorem fixed_bodies :
@@ -529,7 +539,7 @@ theorem facts_match_source :
 -- refused, a JWS-shaped subject is refused without a resolver call, an opaque one resolves
 def exCfg : Cfg := ⟨[[97]], 2, 300⟩
 def exDecode : Bytes → Option Bytes := fun b => some b
-def exResolver : Bytes → Res := fun c => if c = [120] then .identity [115] [110] 0 else .unknown
+def exResolver : Bytes → Res := fun c => if c = [120] then .identity [115] [110] 0 else .unknown [] [] 0
 
 example : (handle (some exCfg) (Limiter.fresh 1000) 0 (.ctx true [97]) 3 [120] exDecode exResolver id).2
     = { resp := .ok [115] [110] 300, bodyRead := true, resolverCalls := [[120]],
